@@ -243,6 +243,26 @@ bool c02_func(hp_line *l)
 		free(out);
 		lzma_index_end(idx, NULL);
 
+	} else if (!strcmp(op, "idxgen") && nt == 4) {
+		// idxgen <n> <seed> <avail>: n pseudo-random Records (LCG shared with the model driver and c02.py)
+		const uint64_t n = hp_u64(l->tok[1]);
+		uint64_t x = hp_u64(l->tok[2]);
+		const size_t avail = (size_t)hp_u64(l->tok[3]);
+		lzma_index *idx = lzma_index_init(NULL);
+		for (uint64_t i = 0; i < n; ++i) {
+			x = x * UINT64_C(6364136223846793005) + UINT64_C(1442695040888963407);
+			const lzma_ret r = lzma_index_append(idx, NULL, 5 + (x >> 33) % 100000, (x >> 11) % (UINT64_C(1) << 30));
+			if (r != LZMA_OK) { printf("append %" PRIu64 " %d\n", i, (int)r); lzma_index_end(idx, NULL); return true; }
+		}
+		uint8_t *out = malloc(avail ? avail : 1);
+		size_t out_pos = 0;
+		const lzma_ret r = lzma_index_buffer_encode(idx, out, &out_pos, avail);
+		printf("%d %" PRIu64 " ", (int)r, lzma_index_size(idx));
+		if (r == LZMA_OK) hp_put_hex(out, out_pos); else putchar('-');
+		putchar('\n');
+		free(out);
+		lzma_index_end(idx, NULL);
+
 	} else if (!strcmp(op, "idxdec") && nt == 2) {
 		size_t n; uint8_t *in = hp_hex(l->tok[1], &n);
 		lzma_index *idx = NULL;
